@@ -32,6 +32,8 @@ type defaultPolicy[V any] struct {
 	done     chan struct{}
 	isClosed bool
 	metrics  *Metrics
+
+	verifLoop verifLoopState
 }
 
 func newDefaultPolicy[V any](numCounters, maxCost int64) *defaultPolicy[V] {
@@ -57,13 +59,18 @@ type policyPair struct {
 }
 
 func (p *defaultPolicy[V]) processItems() {
+	verifTaskStart(verifTaskPolicy, p)
+	defer verifTaskEnd(verifTaskPolicy)
 	for {
+		verifIdle(verifTaskPolicy, &p.verifLoop)
 		select {
-		case items := <-p.itemsCh:
+		case items := <-verifGate(p.itemsCh, &p.verifLoop, verifCaseItems):
+			verifYield(verifSitePolicyItems, 0)
 			p.Lock()
 			p.admit.Push(items)
 			p.Unlock()
-		case <-p.stop:
+		case <-verifGate(p.stop, &p.verifLoop, verifCaseStop):
+			verifYield(verifSitePolicyStop, 0)
 			p.done <- struct{}{}
 			return
 		}
@@ -79,6 +86,7 @@ func (p *defaultPolicy[V]) Push(keys []uint64) bool {
 		return true
 	}
 
+	verifYield(verifSitePolicyPush, 0)
 	select {
 	case p.itemsCh <- keys:
 		p.metrics.add(keepGets, keys[0], uint64(len(keys)))
@@ -93,8 +101,10 @@ func (p *defaultPolicy[V]) Push(keys []uint64) bool {
 // the policy. It returns the list of victims that have been evicted and a boolean
 // indicating whether the incoming item should be accepted.
 func (p *defaultPolicy[V]) Add(key uint64, cost int64) ([]*Item[V], bool) {
+	verifYield(verifSitePolicyAdd, key)
 	p.Lock()
 	defer p.Unlock()
+	verifEvent(verifEvPolicyAdd, key, cost, 0)
 
 	// Cannot add an item bigger than entire cache.
 	if cost > p.evict.getMaxCost() {
@@ -113,6 +123,7 @@ func (p *defaultPolicy[V]) Add(key uint64, cost int64) ([]*Item[V], bool) {
 	if room >= 0 {
 		// There's enough room in the cache to store the new item without
 		// overflowing. Do that now and stop here.
+		verifEvent(verifEvPolicyFits, key, cost, 0)
 		p.evict.add(key, cost)
 		p.metrics.add(costAdd, key, uint64(cost))
 		return nil, true
@@ -145,11 +156,13 @@ func (p *defaultPolicy[V]) Add(key uint64, cost int64) ([]*Item[V], bool) {
 
 		// If the incoming item isn't worth keeping in the policy, reject.
 		if incHits < minHits {
+			verifEvent(verifEvPolicyReject, key, incHits, minHits)
 			p.metrics.add(rejectSets, key, 1)
 			return victims, false
 		}
 
 		// Delete the victim from metadata.
+		verifEvent(verifEvPolicyVictim, minKey, minHits, incHits)
 		p.evict.del(minKey)
 
 		// Delete the victim from sample.
@@ -169,6 +182,7 @@ func (p *defaultPolicy[V]) Add(key uint64, cost int64) ([]*Item[V], bool) {
 }
 
 func (p *defaultPolicy[V]) Has(key uint64) bool {
+	verifYield(verifSitePolicyHas, key)
 	p.Lock()
 	_, exists := p.evict.keyCosts[key]
 	p.Unlock()
@@ -176,12 +190,14 @@ func (p *defaultPolicy[V]) Has(key uint64) bool {
 }
 
 func (p *defaultPolicy[V]) Del(key uint64) {
+	verifYield(verifSitePolicyDel, key)
 	p.Lock()
 	p.evict.del(key)
 	p.Unlock()
 }
 
 func (p *defaultPolicy[V]) Cap() int64 {
+	verifYield(verifSitePolicyCap, 0)
 	p.Lock()
 	capacity := p.evict.getMaxCost() - p.evict.used
 	p.Unlock()
@@ -189,12 +205,14 @@ func (p *defaultPolicy[V]) Cap() int64 {
 }
 
 func (p *defaultPolicy[V]) Update(key uint64, cost int64) {
+	verifYield(verifSitePolicyUpdate, key)
 	p.Lock()
 	p.evict.updateIfHas(key, cost)
 	p.Unlock()
 }
 
 func (p *defaultPolicy[V]) Cost(key uint64) int64 {
+	verifYield(verifSitePolicyCost, key)
 	p.Lock()
 	if cost, found := p.evict.keyCosts[key]; found {
 		p.Unlock()
@@ -205,6 +223,7 @@ func (p *defaultPolicy[V]) Cost(key uint64) int64 {
 }
 
 func (p *defaultPolicy[V]) Clear() {
+	verifYield(verifSitePolicyClear, 0)
 	p.Lock()
 	p.admit.clear()
 	p.evict.clear()
@@ -217,8 +236,12 @@ func (p *defaultPolicy[V]) Close() {
 	}
 
 	// Block until the p.processItems goroutine returns.
+	verifYield(verifSitePolicyCloseReq, 0)
+	verifStopRequest(&p.verifLoop)
 	p.stop <- struct{}{}
+	verifYield(verifSitePolicyCloseWait, 0)
 	<-p.done
+	verifYield(verifSitePolicyClosed, 0)
 	close(p.stop)
 	close(p.done)
 	close(p.itemsCh)
@@ -229,6 +252,7 @@ func (p *defaultPolicy[V]) MaxCost() int64 {
 	if p == nil || p.evict == nil {
 		return 0
 	}
+	verifYield(verifSitePolicyMaxCost, 0)
 	return p.evict.getMaxCost()
 }
 
@@ -236,6 +260,7 @@ func (p *defaultPolicy[V]) UpdateMaxCost(maxCost int64) {
 	if p == nil || p.evict == nil {
 		return
 	}
+	verifYield(verifSitePolicyUpdateMaxCost, 0)
 	p.evict.updateMaxCost(maxCost)
 }
 
@@ -276,7 +301,7 @@ func (p *sampledLFU) fillSample(in []*policyPair) []*policyPair {
 	if len(in) >= lfuSample {
 		return in
 	}
-	for key, cost := range p.keyCosts {
+	for key, cost := range verifRange(p.keyCosts, verifRangeSample) {
 		in = append(in, &policyPair{key, cost})
 		if len(in) >= lfuSample {
 			return in
